@@ -12,10 +12,14 @@ CONSTANTS
   CatchUpWriteErrorFatal = TRUE
   SwallowWriteError = FALSE
   AnnounceBeforeWrite = FALSE
+  MaxReads = 0
+  CachedAccessor = FALSE
+  ErrKinds = {"transport", "timeout", "notfound", "cancel"}
+  NotFoundMeansLatest = FALSE
   FinalityAfterNotices = TRUE
 INIT Init
 NEXT Next
 VIEW view
 INVARIANTS TypeOK StoredFinalisedCanonical BufferSane ChainSane AnnouncedIsRecorded
-PROPERTIES SetHeadExact RunningImpliesRecorded StopOnlyOnWriteFailure OnlySetHeadWrites Monotone RestartIsNoOp
+PROPERTIES FailedFinIsRetried HeadWithinReported SetHeadExact RunningImpliesRecorded StopOnlyOnWriteFailure OnlySetHeadWrites Monotone RestartIsNoOp
 CHECK_DEADLOCK FALSE
